@@ -18,6 +18,21 @@ import tagger_hooks as th
 CONTIG_OF_JOB = {1: '*', 2: 'chrA', 3: 'chrB'}
 
 
+SHAPES = {     # input shapes of C05 for finished runs (no fault): the plan / idxstats side of completeness
+    'unmapped_only_contigs': {'contigs': [{'name': 'sU', 'len': 2500, 'big': False, 'kinds': ['orphan_unmapped']},
+                                          {'name': 'bigU', 'len': 250_000, 'big': True, 'kinds': ['orphan_unmapped', 'orphan_unmapped']},
+                                          {'name': 'chrA', 'len': 100_001, 'big': True, 'kinds': ['pair']}], 'star': []},
+    'one_small_contig': {'contigs': [{'name': 'chr1', 'len': 250_000, 'big': True, 'kinds': ['pair']},
+                                     {'name': 'chrM', 'len': 2500, 'big': False, 'kinds': ['single', 'pair']},
+                                     {'name': 'chr2', 'len': 250_000, 'big': True, 'kinds': ['pair_rev']}], 'star': ['unplaced_pair']},
+    'threshold_and_equal_lengths': {'contigs': [{'name': 'e1', 'len': 100_000, 'big': True, 'kinds': ['pair']},
+                                                {'name': 'e2', 'len': 100_000, 'big': True, 'kinds': ['single']},
+                                                {'name': 's1', 'len': 99_999, 'big': False, 'kinds': ['pair']},
+                                                {'name': 's2', 'len': 99_999, 'big': False, 'kinds': ['half']}],
+                                    'star': ['unplaced_single', 'unplaced_single']},
+}
+
+
 def layout_for(size, mixed=False, damaged=None):
     """size = [n unplaced molecules, molecules on chrA, molecules on chrB]; big contigs only, so that the plan of the
     contig-per-process mode is complete whatever the plan code does with small contigs. mixed: the D4-sensitive shape."""
@@ -46,6 +61,15 @@ def fault_for(s):
 
     def P(site, when, nth=1):
         return {'proc': 'parent', 'site': site, 'when': when, 'nth': nth, 'kind': kind}
+    if kind == 'vanish':      # a file produced by an earlier step disappears (odd k: is emptied) before the next step; no exception
+        how = 'empty' if s.get('variant', 0) % 2 else 'delete'
+        if at == 'sort':
+            return dict(P('rehead', 'after'), target='@unsorted', how=how), False
+        if at == 'index':
+            return dict(P('index', 'before', 1), target='@out', how=how), False
+        if at == 'merge':
+            return dict(P('merge_bams', 'before'), target_job=CONTIG_OF_JOB[job], how=how), False
+        raise KeyError(s)
     if at.startswith('worker:'):
         wpc = at.split(':', 1)[1]
         proc = 'job:%s' % CONTIG_OF_JOB[job]
@@ -53,7 +77,7 @@ def fault_for(s):
         if wpc == 'open':
             site = ('write', 'before', k + 1) if k < sz else ('sbf_exit', 'before', 1)
         else:
-            site = {'idle': ('job', 'before', 1), 'closed': ('rehead', 'before', 1), 'rg': ('rehead', 'after', 1),
+            site = {'idle': ('job', 'before', 1), 'closed': ('rehead', 'before', 1), 'rgtmp': ('bfrename', 'before', 1), 'rg': ('rehead', 'after', 1),
                     'sorted': ('sort', 'after', 1), 'indexed': ('index', 'after', 1), 'clean': ('sbf_exit', 'after', 1)}[wpc]
         return {'proc': proc, 'site': site[0], 'when': site[1], 'nth': site[2], 'kind': kind}, kind in ('kill', 'interrupt')
     common = {'start': P('status', 'before', 1), 'verify': P('verify', 'before'), 'rmold': P('verify', 'after'),
@@ -69,6 +93,7 @@ def fault_for(s):
             f = P('sort', 'short' if s.get('left') == 'short' else 'partial', tries + 1)
         else:
             f = {'open': P('prefetch', 'before'), 'close': P('sbf_exit', 'before'), 'addrg': P('rehead', 'before'),
+                 'addrg2': P('bfrename', 'before', 1), 'indexing': P('index', 'partial', 1),
                  'index': P('index', 'before', 1), 'rmunsorted': P('index', 'after', 1), 'statusok': P('sbf_exit', 'after')}[at]
         if tries:
             f['soft'] = {'proc': 'parent', 'site': 'sort', 'when': 'short' if s.get('left') == 'short' else 'partial', 'count': tries}
@@ -76,15 +101,15 @@ def fault_for(s):
                 f['soft']['when'] = 'before'
         return f, False
     f = {'plan': P('plan', 'before'), 'pool': P('plan', 'after'), 'header': P('index', 'before', 1),
-         'merge': P('merge_bams', 'before'), 'merging': P('merge', 'short' if s.get('left') == 'short' else 'partial'), 'indexmerged': P('merge', 'after'),
+         'merge': P('merge_bams', 'before'), 'merging': P('merge', 'short' if s.get('left') == 'short' else 'partial'), 'indexmerged': P('merge', 'after'), 'indexingmerged': P('index', 'partial', 2),
          'rmparts': P('index', 'after', 2), 'rmtemp': P('merge_bams', 'after'), 'statusok': P('rmtree', 'after')}[at]
     return f, False
 
 
-def make_case(cid, workdir, s, method, bamseed, mixed=False, damaged=None):
+def make_case(cid, workdir, s, method, bamseed, mixed=False, damaged=None, shape=None):
     cdir = os.path.join(workdir, 'case_%s' % cid)
     os.makedirs(cdir, exist_ok=True)
-    layout = layout_for(s['size'], mixed, damaged)
+    layout = layout_for(s['size'], mixed, damaged) if not shape else json.loads(json.dumps(SHAPES[shape]))
     inp = os.path.join(cdir, 'in.bam')
     truth = tg.write(inp, layout, random.Random(bamseed), method)
     out = os.path.join(cdir, 'out.bam')
@@ -92,8 +117,11 @@ def make_case(cid, workdir, s, method, bamseed, mixed=False, damaged=None):
     if s['pipeline'] == 'multi':
         argv += ['--multiprocess', '-tagthreads', '2', '-temp_folder', cdir]
     fault, hang = fault_for(s)
+    if fault and str(fault.get('target', '')).startswith('@'):
+        fault['target'] = {'@unsorted': out + '.unsorted', '@out': out}[fault['target']]
     return {'id': cid, 'argv': argv, 'out': out, 'inp': inp, 'truth': truth, 'layout': layout, 'scn': s, 'method': method,
-            'fault': fault, 'expect_hang': hang, 'prerun': bool(s['prev']), 'bamseed': bamseed, 'mixed': mixed, 'damaged': damaged or '', 'snapshots': True}
+            'fault': fault, 'expect_hang': hang, 'prerun': bool(s['prev']), 'bamseed': bamseed, 'mixed': mixed, 'damaged': damaged or '', 'shape': shape or '', 'snapshots': True,
+            'stale_old_index': bool(s['prev'])}
 
 
 def strip(o):
@@ -112,7 +140,7 @@ def events_for(case, res, tid):
         del r['rg'], r['flag']
     pe = res['events']['parent']
     base = {'tid': tid, 'pipeline': case['scn']['pipeline'], 'method': case['method'], 'scn': case['scn'], 'mixed': case['mixed'],
-            'damaged': case['damaged'],
+            'damaged': case['damaged'], 'shape': case['shape'],
             'bamseed': case['bamseed'], 'fault': {k: v for k, v in (case['fault'] or {}).items() if k != 'soft'} or {'site': 'none'}}
     evs = []
     writes = [e for e in pe if e['ev'] == 'status_write']
@@ -141,7 +169,7 @@ def main():
     unrealisable = []
     if replay:
         cases.append(make_case(1, workdir, replay['scn'], replay['method'], replay['bamseed'], replay.get('mixed', False),
-                               replay.get('damaged') or None))
+                               replay.get('damaged') or None, replay.get('shape') or None))
     else:
         for k, s in enumerate(scns):
             if s['at'].startswith('worker:') and s['job'] >= 2 and s['size'][s['job'] - 1] == 0:
@@ -153,11 +181,16 @@ def main():
                 unrealisable.append(k)      # no molecule, so no boundary inside the loop to inject at
                 continue
             methods = ['nla', 'chic'] if (tier != 'quick' or s['at'] == 'done') else [['nla', 'chic'][k % 2]]
-            for m in methods:
-                cases.append(make_case(len(cases) + 1, workdir, s, m, rng.randrange(1 << 30)))
+            for vi, m in enumerate(methods if s['kind'] != 'vanish' else ['nla', 'chic']):
+                cases.append(make_case(len(cases) + 1, workdir, dict(s, variant=vi) if s['kind'] == 'vanish' else s, m,
+                                       rng.randrange(1 << 30)))
             if s['at'] == 'done' and s['kind'] == 'none' and s['pipeline'] == 'multi':
                 # the same finished run on a layout with small contigs (the plan of the contig-per-process mode matters)
                 cases.append(make_case(len(cases) + 1, workdir, s, 'nla', rng.randrange(1 << 30), mixed=True))
+            if s['at'] == 'done' and s['kind'] == 'none' and s['tries'] == 0 and sum(s['size']) > 0:
+                for shp in sorted(SHAPES):
+                    for m in ('nla', 'chic'):
+                        cases.append(make_case(len(cases) + 1, workdir, s, m, rng.randrange(1 << 30), shape=shp))
             if s['at'] == 'done' and s['kind'] == 'none' and s['tries'] == 0 and sum(s['size']) > 0:
                 # falsy-but-valid input: a BAM without any record (finished run, earlier run present / absent as in s)
                 empty = dict(s, size=[0, 0, 0], k=0)
